@@ -547,6 +547,9 @@ func (ex *Exec) set(s *State, name string, t *Term) {
 	if ex.written != nil {
 		ex.written[name] = t.Sort
 	}
+	if ex.writtenOuter != nil {
+		ex.writtenOuter[name] = t.Sort
+	}
 }
 
 // setAt is set for a write into the object ref: writes to objects allocated
@@ -558,6 +561,9 @@ func (ex *Exec) setAt(s *State, name string, t *Term, ref *Term) {
 	}
 	if ex.written != nil && !(ref != nil && ex.freshRefs[ref]) {
 		ex.written[name] = t.Sort
+	}
+	if ex.writtenOuter != nil && !(ref != nil && (ex.freshRefs[ref] || ex.parentFresh[ref])) {
+		ex.writtenOuter[name] = t.Sort
 	}
 }
 
@@ -743,8 +749,10 @@ func (ex *Exec) newRef(s *State, hint string) *Term {
 	if ex.freshRefs != nil {
 		ex.freshRefs[r] = true
 	}
-	s.assume(Eq(r, s.alloc))
+	// r is at or above the allocation frontier (compared, never equated: the
+	// term simplifier treats a fresh reference as distinct from all older terms)
+	s.assume(Ge(r, s.alloc))
 	s.assume(Gt(r, IntLit(0, SRef)))
-	s.alloc = Add(s.alloc, IntLit(1, SRef))
+	s.alloc = Add(r, IntLit(1, SRef))
 	return r
 }
